@@ -104,7 +104,7 @@ impl Property for C05 {
         40_000
     }
     fn random_cases(&self, tier: Tier) -> u64 {
-        tier.pick(150_000, 3_000_000)
+        tier.pick(600_000, 4_000_000)
     }
     fn run(&self, t: &mut Tape, ctx: &mut CaseCtx) -> Verdict {
         let allow_quote = !ctx.is_known("escaped-quote|unexpected-error");
